@@ -498,7 +498,8 @@ def rule_gf9_11(chk: Check):
     from .. import repo as _repo
     members = sorted(_repo.token_enum_names())      # the tokenizer's Token enum, read from its definition
     toks = [t for t in members if t not in ("SOFT_KEYWORD", "KEYWORD", "ANY_TOKEN")]
-    enum = FakeEnum({t: types.SimpleNamespace(name=t) for t in members})
+    canon = _repo.token_enum_canonical()
+    enum = FakeEnum({t: types.SimpleNamespace(name=canon.get(t, t)) for t in members})
     gen = types.SimpleNamespace(tokens=set(members) | {"SOFT_KEYWORD", "KEYWORD", "ANY_TOKEN"}, tokens_enum=enum)
     me = types.SimpleNamespace(gen=gen)
     bad = []
@@ -613,7 +614,41 @@ def rule_gf12_14(chk: Check):
                 "visitor's bookkeeping (a string leaf that is a keyword is then missing from the regenerated KEYWORDS table)")
 
 
+def rule_gf15(chk: Check):
+    """GF15: the helper counter advances on *every* request for a group helper, also when the group is answered from the
+    de-duplication cache — the shipped numbering of the `_tmp_N` methods was produced that way, and a regenerated parser is compared
+    method by method."""
+    from ..pyflow import stmt_paths
+    mod = parse_py("tasks/generator.py")
+    fn = _find_method(mod, "XonshParserGenerator", "artifical_rule_from_rhs")
+    chk.count("GF15-counter-per-request")
+    if fn is None:
+        raise AnalysisError("XonshParserGenerator.artifical_rule_from_rhs vanished")
+    cls = next((c for c in mod.body if isinstance(c, ast.ClassDef) and c.name == "XonshParserGenerator"), None)
+    bumpers = {"self.counter += 1", "self.counter = self.counter + 1"}
+    helper_calls = set()
+    pg = parse_py("pegen/parser_generator.py")
+    for m in [x for c in list(mod.body) + list(pg.body) if isinstance(c, ast.ClassDef) for x in c.body if isinstance(x, ast.FunctionDef)]:
+        if any(norm_stmt(st) in bumpers for st in ast.walk(m) if isinstance(st, ast.stmt)) and m.name != "artifical_rule_from_rhs":
+            helper_calls.add(f"self.{m.name}(")
+    try:
+        paths = stmt_paths(list(fn.body), opaque_loops=True, split_bool=True)
+    except AnalysisError as e:
+        chk.undecided("GF15-counter-per-request", "XonshParserGenerator.artifical_rule_from_rhs", f"tasks/generator.py:{fn.lineno}", str(e))
+        return
+    bad = []
+    for pth in paths:
+        texts = [x[1] for x in pth if x[0] in ("do", "cond")] + [pth[-1][2] or ""]
+        bumped_at = next((i for i, x in enumerate(pth) if (x[0] == "do" and (x[1] in bumpers or any(h in x[1] for h in helper_calls)))), None)
+        if bumped_at is None and pth[-1][1] == "return":
+            bad.append([x[1] for x in pth if x[0] == "cond"])
+    chk.require(not bad, "GF15-counter-per-request", "XonshParserGenerator.artifical_rule_from_rhs", f"tasks/generator.py:{fn.lineno}",
+                f"a path returns a helper name without having advanced the counter (conditions {bad[:1]}): a de-duplicated group then "
+                f"no longer uses up a number and every later `_tmp_N` of the regenerated parser is renumbered against the shipped one")
+
+
 def run(chk: Check):
+    rule_gf15(chk)
     rule_gf12_14(chk)
     rule_gf1(chk)
     rule_gf2(chk)
